@@ -257,8 +257,11 @@ impl ObjectReceiver {
                 ) as usize,
             };
 
-            if self.nb_allocated_blocks >= 2
-                && self.total_allocated_blocks_size + block_length > self.max_size_allocated
+            // The first two blocks are always accepted, unless a single block is already
+            // bigger than the cache: the block length comes from the network
+            if block_length > self.max_size_allocated
+                || (self.nb_allocated_blocks >= 2
+                    && self.total_allocated_blocks_size + block_length > self.max_size_allocated)
             {
                 log::error!(
                     "NB Allocated blocks={}/{} total_allocated={}/{} block_length={}",
